@@ -23,6 +23,19 @@ def specs(tier):
             out.append(XSpec("merge[%s,geom,k=4]" % cr, "vlib.harness.c16", "cond_merge", "reach_merge", timeout=900,
                              env=dict(VB_K=4, VB_L=6, VB_CRIT=cr, VB_MODE="geom", VB_T=3),
                              bounds=dict(k=4, max_len=6, positions="unbounded int", criteria=cr, mode="geom")))
+    # database side: children_bp and merge_all over simsql
+    HD = "vlib.harness.c16db"
+    for s1 in (2, 3, 4):
+        for crit in ("default", "nostrand"):
+            out.append(XSpec("children_bp[merge=True,%s criteria,second exon starts at %d]" % (crit, s1), HD, "cond_bp", "reach_bp", timeout=1200,
+                             env=dict(VB_CRIT=crit, VB_S1=s1, VB_FLAG=1),
+                             bounds=dict(exons="3: first at 1 on '+', starts increasing up to 6", lengths="1..3 / 1..2 / 1", strands="+/- for exons 2,3", criteria=crit)))
+        out.append(XSpec("children_bp[merge=False,second exon starts at %d]" % s1, HD, "cond_bp", "reach_bp", timeout=1200,
+                         env=dict(VB_CRIT="default", VB_S1=s1, VB_FLAG=0), bounds=dict(exons=3, merge=False)))
+        for ex in (0, 1):
+            out.append(XSpec("merge_all[exclude_components=%d,second exon starts at %d]" % (ex, s1), HD, "cond_all", "reach_all", timeout=1500,
+                             env=dict(VB_S1=s1, VB_FLAG=ex),
+                             bounds=dict(exons="3: first at 1 on '+', starts increasing up to 6", strands="+/- for exons 2,3", exclude_components=bool(ex))))
     return out
 
 
@@ -33,9 +46,9 @@ def run(tier, seed):
             "inputs are start-ordered (the statement's precondition); feature lengths bounded (Feature.__len__ is used for truthiness), positions unbounded",
             "seqid/strand/featuretype range over two values each (the criteria and merge() use them through equality only)",
             "quick tier separates geometry (fields equal) from field mixtures (geometry fixed); the thorough tier takes the product",
-            "children_bp / merge_all (database side) are decided in the C16-db conditions when present",
+            "children_bp / merge_all: one mRNA with 3 exons (distinct starts in 1..5, lengths 1..3, either strand) over simsql; oracle = the same run-accumulation rule; merge_all must store one fresh feature per multi-member run and relate (or delete) exactly its members",
         ],
-        stand_ins=["FeatureDB object without a connection (merge never touches the database)"],
+        stand_ins=["FeatureDB object without a connection (merge never touches the database)", "simsql/jsonbox/fakefs/bins_stub (children_bp, merge_all)"],
         functions=["gffutils.interface.FeatureDB.merge", "gffutils.interface._finalize_merge", "gffutils.merge_criteria.*",
                    "gffutils.feature.Feature.__init__", "gffutils.feature.Feature.__len__", "gffutils.interface.FeatureDB._feature_returner"],
     )
